@@ -295,3 +295,44 @@ func (c *Ctx) Finish(spec *PropSpec, known *KnownFindings, tier string, seed int
 	}
 	return res, nil
 }
+
+// Borrow runs another property's checker in a scratch context and adopts, under rule `to`, the
+// obligations of its rule `from` whose key keep accepts: a rule that is a necessary condition of
+// two properties is written once and armed in both. A borrowed run never borrows itself.
+func (c *Ctx) Borrow(run func(*Ctx), from, to string, keep func(key string) bool) int {
+	if c.Property == "borrow" {
+		return 0
+	}
+	sub := NewCtx("borrow", c.Progs)
+	run(sub)
+	n := 0
+	for _, o := range sub.Obs {
+		if o.Rule != from {
+			continue
+		}
+		k := strings.SplitN(o.Key, "|", 2)
+		if len(k) != 2 || (keep != nil && !keep(k[1])) {
+			continue
+		}
+		cp := *o
+		cp.Rule = to
+		cp.Key = to + "|" + k[1]
+		dup := false
+		for _, e := range c.Obs {
+			if e.Key == cp.Key {
+				dup = true
+				if rank(cp.Status) > rank(e.Status) {
+					e.Status, e.Reason, e.Site = cp.Status, cp.Reason, cp.Site
+				}
+			}
+		}
+		if !dup {
+			c.Obs = append(c.Obs, &cp)
+		}
+		n++
+	}
+	if n == 0 {
+		c.add(to, "borrowed:"+from, nil, 0, Undecided, "no obligation of "+from+" matched: the borrowed rule went vacuous")
+	}
+	return n
+}
